@@ -46,6 +46,7 @@ func genC07(t *rapid.T) *Case {
 		v.CallHeader = 1
 	}
 	v.TrlOpt = true
+	v.CtxCause = rapid.IntRange(0, 2).Draw(t, "victim.cause") == 0
 	v.HOps = append(v.HOps, MDOp{Kind: "settrl", MD: map[string][]string{"victim-trailer": {"1", "2"}}})
 	pos := rapid.IntRange(0, len(c.RPCs)).Draw(t, "victim.pos")
 	c.RPCs = append(c.RPCs[:pos], append([]RPC{v}, c.RPCs[pos:]...)...)
